@@ -22,6 +22,9 @@ Definition s_endLine := [101;110;100;76;105;110;101]%N.
 Definition s_startOffset := [115;116;97;114;116;79;102;102;115;101;116]%N.
 Definition s_endOffset := [101;110;100;79;102;102;115;101;116]%N.
 Definition s_component := [99;111;109;112;111;110;101;110;116]%N.
+Definition s_flows := [102;108;111;119;115]%N.
+Definition s_locations := [108;111;99;97;116;105;111;110;115]%N.
+Definition s_message := [109;101;115;115;97;103;101]%N.
 Definition s_key := [107;101;121]%N.
 
 Definition jget_or_null k j := match jget k j with Some v => v | None => JNull end.
@@ -40,7 +43,7 @@ Definition sonar_entries (v : sonar_select) (doc : json) : option (list json) :=
   match doc with
   | JObj _ =>
       match v with
-      | IssuesPlusHotspots =>
+      | IssuesPlusHotspots | IssuesPlusHotspotsPerEntry =>
           match j_add (j_or issues (JArr [])) (j_or hotspots (JArr [])) with
           | Some r => jarr r | None => None end
       | IssuesOrElse =>
@@ -57,10 +60,59 @@ Definition sonar_entries (v : sonar_select) (doc : json) : option (list json) :=
 (** sonar_url_from_id raises IndexError when the rule id has no ':' *)
 Definition rule_has_colon (r : str) : bool := match split_sep 58%N r with _ :: _ :: _ => true | _ => false end.
 
+(** Python iteration over a loaded JSON value (a dict yields its keys -- duplicates of the JSON text are not collapsed
+    here, the callers only depend on the items being strings and on emptiness --, a str its characters); None = TypeError *)
+Definition py_iter (j : json) : option (list json) :=
+  match j with
+  | JArr l => Some l
+  | JObj kvs => Some (map (fun kv => JStr (fst kv)) kvs)
+  | JStr cs => Some (map (fun c => JStr [c]) cs)
+  | _ => None
+  end.
+
+(** SonarLocation.from_json_location on a flow location, up to raising: the location must be a dict whose
+    textRange is a dict (`.get` on it) and whose component is a str (`.split`) *)
+Definition flow_location (l : json) : option unit :=
+  match l with
+  | JObj _ =>
+      match jget_or_null s_textRange l, jget s_component l with
+      | JObj _, Some (JStr _) => Some tt
+      | _, _ => None
+      end
+  | _ => None
+  end.
+
+(** [ ... for json_location in flow.get("locations", {}) ] *)
+Definition flow_locations (f : json) : option (list unit) :=
+  match f with
+  | JObj _ =>
+      match jget s_locations f with
+      | None => Some []
+      | Some ls => match py_iter ls with Some its => mapM flow_location its | None => None end
+      end
+  | _ => None
+  end.
+
+(** all_flows = [ [...] for flow in result.get("flows", []) ]: built (and able to raise) for every open entry,
+    although the code flows themselves are not findings *)
+Definition all_flows (e : json) : option (list (list unit)) :=
+  match jget s_flows e with
+  | None => Some []
+  | Some fl => match py_iter fl with Some its => mapM flow_locations its | None => None end
+  end.
+
+(** name = result.get("message", None) or rule_id ; Rule(name=name) is validated by pydantic: a str *)
+Definition message_ok (e : json) : bool :=
+  match jget s_message e with
+  | None => true
+  | Some m => negb (jtruthy m) || match m with JStr _ => true | _ => false end
+  end.
+
 (** SonarResult.from_result: Some [] when the entry has no textRange *)
 Definition sonar_from_result (e : json) : option (list finding) :=
   match e with
   | JObj _ =>
+      if negb (match all_flows e with Some _ => true | None => false end && message_ok e) then None else
       let rule := j_or (jget_or_null s_rule e) (jget_or_null s_ruleKey e) in
       if negb (jtruthy rule) then None else
       match jstr rule with
@@ -95,11 +147,16 @@ Definition sonar_entry (e : json) : option (list finding) :=
   | None => None
   end.
 
-(** SonarResultSet.from_json after json.load: any exception drops the WHOLE file (returns an empty set). *)
+(** SonarResultSet.from_json after json.load: any exception drops the WHOLE file (returns an empty set); in the
+    per-entry form an exception in the loop body only skips that entry. *)
 Definition sonar_reader (v : sonar_select) (doc : json) : list finding :=
   match sonar_entries v doc with
   | None => []
-  | Some es => match mapM sonar_entry es with Some ls => concat ls | None => [] end
+  | Some es =>
+      match v with
+      | IssuesPlusHotspotsPerEntry => flat_map (fun e => match sonar_entry e with Some fs => fs | None => [] end) es
+      | _ => match mapM sonar_entry es with Some ls => concat ls | None => [] end
+      end
   end.
 
 (** DefectDojoResultSet.from_json *)
